@@ -63,11 +63,13 @@ def gen(rng, tier):
         yield dict(kind="gen", cls="ss", params=params, screen=sd, seed=rng.randrange(10 ** 6))
     for _ in range(60 * k):
         sd = L.gen_screen(rng, arity=2, n_treat=rng.randint(2, 6))
+        if rng.random() < 0.3:
+            sd = L.inject_all_control(rng, sd)
         params = dict(subset=rng.choice([1, 1, 1, 2, 2, 3, 0, -1]), anchor=rng.choice([0, 0, 0, 1, 2, 3]))
         yield dict(kind="gen", cls="pairwise", params=params, screen=sd, seed=rng.randrange(10 ** 6))
     for _ in range(200 * k):
         cls = rng.choice(["mergemin", "mergetb", "fixed", "optimal", "nplate", "nplate", "ensemble"])
-        sd = L.gen_screen(rng, style=rng.choice(["one_sample_plates"] * 5 + ["mixed"]) if cls in ("mergemin", "mergetb", "nplate", "ensemble") else None)
+        sd = L.gen_screen(rng, style=rng.choice(["one_sample_plates"] * 5 + ["mixed"] + ["many_plates"] * 4) if cls in ("mergemin", "mergetb", "nplate", "ensemble") else None)
         params = L.smoother_params(rng, sd)
         yield dict(kind="smooth", cls=cls, params=params, screen=sd, seed=rng.randrange(10 ** 6))
     for _ in range(50 * k):
